@@ -176,6 +176,8 @@ def _merge_point(job):
         make_tree(d)
         auto = p["auto"]
         cfgvals = {s: cfg_value(s, auto) for s, c in ((p["s1"], p["c1"]), (p["s2"], p["c2"])) if c == "set"}
+        # "setdef": the config file spells out the built-in default (not expressible for exclude, whose default is "not set")
+        cfgvals.update({s: DEFAULT[s] for s, c in ((p["s1"], p["c1"]), (p["s2"], p["c2"])) if c == "setdef" and DEFAULT[s] is not None})
         if cfgvals:
             open("flowmark.toml", "w").write(render_config(cfgvals, idx % 4))
         argv = flag_args(p["s1"], p["f1"]) + flag_args(p["s2"], p["f2"])
@@ -270,7 +272,7 @@ CONSTS = dict(Settings=set(SETTINGS), Valued=VALUED, AutoLocked=AUTOLOCKED, Muta
 
 def run(tier: str) -> int:
     chk = Check("C16", tier, "model_checking")
-    chk.rule = ("cases = complete products of spec/Config.tla: (ordered pairs of the 12 settings) x flag state x config state x --auto, and "
+    chk.rule = ("cases = complete products of spec/Config.tla: (ordered pairs of the 12 settings) x flag state x config state (unset / non-default / default spelled out) x --auto, and "
                 "all 4096 populations of a 3-directory chain with 4 config file kinds; quick executes every third merge point and every "
                 "fourth locate point (seeded offset), thorough all; non-trivial = point with a flag given or a config value set / a file present")
     chk.assumptions = ["effective behaviour is observed end to end (formatted probe bytes, --list-files output) and compared with reference runs of "
@@ -311,7 +313,7 @@ def run(tier: str) -> int:
         traces.append(dict(id=tid, fam="merge", p=p, obs=r["obs"]))
         metas[tid] = dict(fam="merge", point=p, model_eff=m[2], observed_sources=r["obs"], rc=r["rc"], stderr=r["err"], argv=r["argv"],
                           config=r["cfg"], output_head=r["fmt_head"], listing=r["lst"])
-        if p["f1"] != "absent" or p["c1"] == "set" or p["f2"] != "absent" or p["c2"] == "set":
+        if p["f1"] != "absent" or p["c1"] != "unset" or p["f2"] != "absent" or p["c2"] != "unset":
             chk.nontriv(json.dumps(p, sort_keys=True))
     for m, r in zip(locate, lres):
         tid += 1
